@@ -60,35 +60,39 @@ def validateDecided (cfg : Cfg) (m : Msg) : V Unit := do
 /-- `Controller.SaveInstance(inst, msg)` of a light node: reaches storage only for the highest height -/
 def saveOuts (c : Ctrl) (m : Msg) : List Out := if m.height ≥ c.height then [.save m] else []
 
+/-- the instance-container part of `UponDecided`: (new container, `save`) -/
+def decidedUpdate (cfg : Cfg) (c : Ctrl) (m : Msg) : List State × Bool :=
+  match findInstance c.insts m.height with
+  | none =>
+    let i := { newInstance m.height with round := m.round, decided := true, decidedValue := m.fullData,
+                                          commit := addMsg [] m }
+    (addNewInstance cfg.capacity c.insts i, true)
+  | some i =>
+    if !i.decided then
+      (updateInstance c.insts { i with decided := true, round := m.round, decidedValue := m.fullData,
+                                       commit := addMsg i.commit m }, true)
+    else
+      let signers := (longestUniqueSigners i.commit m.round m.root).1
+      if m.signers.length > signers.length then
+        (updateInstance c.insts { i with commit := addMsg i.commit m }, true)
+      else (c.insts, false)
+
+/-- the storage part of `UponDecided`: saved only if `save` and the instance is (still) in the container -/
+def decidedSaveOuts (c1 : Ctrl) (save : Bool) (m : Msg) : List Out :=
+  if save && (findInstance c1.insts m.height).isSome then saveOuts c1 m else []
+
 /-- `Controller.UponDecided(msg)` -/
 def uponDecided (cfg : Cfg) (c : Ctrl) (m : Msg) : CStep :=
   match wrap .invalidDecided (validateDecided cfg m) with
   | .error (.tag t) => ⟨c, [], .err t⟩
   | .error .panic => ⟨c, [], .panic⟩
   | .ok _ =>
-    let inst := findInstance c.insts m.height
-    let prevDecided := match inst with | some i => i.decided | none => false
+    let prevDecided := match findInstance c.insts m.height with | some i => i.decided | none => false
     let isFuture := decide (m.height > c.height)
-    let (insts', save) : List State × Bool :=
-      match inst with
-      | none =>
-        let i := { newInstance m.height with round := m.round, decided := true, decidedValue := m.fullData,
-                                              commit := addMsg [] m }
-        (addNewInstance cfg.capacity c.insts i, true)
-      | some i =>
-        if !i.decided then
-          (updateInstance c.insts { i with decided := true, round := m.round, decidedValue := m.fullData,
-                                           commit := addMsg i.commit m }, true)
-        else
-          let signers := (longestUniqueSigners i.commit m.round m.root).1
-          if m.signers.length > signers.length then
-            (updateInstance c.insts { i with commit := addMsg i.commit m }, true)
-          else (c.insts, false)
-    let c1 : Ctrl := { c with insts := insts' }
-    let outsSave : List Out :=
-      if save && (findInstance insts' m.height).isSome then saveOuts c1 m else []
+    let upd := decidedUpdate cfg c m
+    let c1 : Ctrl := { c with insts := upd.1 }
     let c2 : Ctrl := if isFuture then { c1 with height := m.height } else c1
-    ⟨c2, outsSave ++ [.notify m], .ok (if prevDecided then none else some m)⟩
+    ⟨c2, decidedSaveOuts c1 upd.2 m ++ [.notify m], .ok (if prevDecided then none else some m)⟩
 
 /-- `Controller.isFutureMessage(msg)` -/
 def isFutureMessage (c : Ctrl) (m : Msg) : Bool :=
